@@ -8,6 +8,7 @@ import (
 	"io"
 	"net"
 	"strings"
+	"sync"
 	"time"
 
 	"github.com/gammazero/nexus/v3/stdlog"
@@ -34,6 +35,11 @@ type rawSocketPeer struct {
 	ctxSender    context.Context
 
 	writerDone chan struct{}
+
+	// wrMu serializes the frames written to the socket by sendHandler
+	// (messages) and by recvHandler (PONG), so that one frame's header and
+	// payload are never separated by another frame.
+	wrMu sync.Mutex
 
 	log stdlog.StdLog
 }
@@ -220,13 +226,17 @@ sendLoop:
 			}
 			lenBytes := intToBytes(len(b))
 			header := []byte{0x0, lenBytes[0], lenBytes[1], lenBytes[2]}
+			rs.wrMu.Lock()
 			if _, err = rs.conn.Write(header); err != nil {
+				rs.wrMu.Unlock()
 				if !wamp.IsGoodbyeAck(msg) {
 					rs.log.Println("Error writing header:", err)
 				}
 				continue sendLoop
 			}
-			if _, err = rs.conn.Write(b); err != nil {
+			_, err = rs.conn.Write(b)
+			rs.wrMu.Unlock()
+			if err != nil {
 				if !wamp.IsGoodbyeAck(msg) {
 					rs.log.Println("Error writing message:", msg, err)
 				}
@@ -290,13 +300,22 @@ MsgLoop:
 				continue MsgLoop
 			}
 		case 1: // PING
-			header[0] = 0x02
-			if _, err = rs.conn.Write(header[:]); err != nil {
-				rs.log.Println("Error writing header responding to PING:", err)
+			// Read the payload first, so that the PONG can be written as a
+			// whole while holding the write lock.
+			payload := make([]byte, length)
+			if _, err = io.ReadFull(rs.conn, payload); err != nil {
+				rs.log.Println("Error reading PING:", err)
 				_ = rs.conn.Close()
 				return
 			}
-			if _, err = io.CopyN(rs.conn, rs.conn, int64(length)); err != nil {
+			header[0] = 0x02
+			rs.wrMu.Lock()
+			_, err = rs.conn.Write(header[:])
+			if err == nil && length != 0 {
+				_, err = rs.conn.Write(payload)
+			}
+			rs.wrMu.Unlock()
+			if err != nil {
 				rs.log.Println("Error responding to PING:", err)
 				_ = rs.conn.Close()
 				return
